@@ -149,6 +149,34 @@ FINE = COARSE + [
 ]
 
 
+# line granularity: every source line of the code that owns or consults the two per-thread singletons is a
+# scheduling point (sys.settrace 'line' events in the two worker threads)
+LINE_SCOPES = ('_IterativeEvalTracker.', '_ArrayFormulaContext.', '_CycleCell.', '_CycleCellRange.', '_CellBase.',
+               'ExcelCompiler._evaluate', 'ExcelCompiler.evaluate', 'ExcelFormula.build_eval_context.',
+               'cse_array_wrapper.', 'iferror', 'ExcelCompiler.eval')
+
+
+def line_tracer(holder):
+    def local(frame, event, arg):
+        if event == 'line':
+            s = holder[0]
+            if s is not None:
+                s.point(f'{frame.f_code.co_name}:{frame.f_lineno}')
+        return local
+
+    def tracer(frame, event, arg):
+        if event != 'call':
+            return None
+        code = frame.f_code
+        if '/pycel/' not in code.co_filename:
+            return None
+        q = code.co_qualname
+        if any(q.startswith(p) or ('.' + p) in q for p in LINE_SCOPES):
+            return local
+        return None
+    return tracer
+
+
 @contextlib.contextmanager
 def patched(holder, points):
     import importlib
@@ -221,7 +249,7 @@ def work(job):
                 g0, g1 = f0, f1
                 f0 = lambda: (warm_up(), g0())[1]     # noqa: E731
                 f1 = lambda: (warm_up(), g1())[1]     # noqa: E731
-            s.out = s.run(f0, f1, copy_context=(warm == 'ctx'))
+            s.out = s.run(f0, f1, copy_context=(warm == 'ctx'), tracer=line_tracer(holder) if fine == 'line' else None)
             holder[0] = None
             return s
 
@@ -243,7 +271,7 @@ def work(job):
                                        observed=jsonable(got), expected=jsonable(refs[tid])),
                                   f'{pair} warm={warm} schedule {prefix}: thread {tid} ({(n0, n1)[tid]}) got {got} '
                                   f'but alone it gets {refs[tid]}')
-        with patched(holder, FINE if fine else COARSE):
+        with patched(holder, [] if fine == 'line' else FINE if fine else COARSE):
             n = sched.explore(run_schedule, bound, on_result, max_schedules=max_schedules)
             # determinism: one non-trivial schedule replayed twice must give identical observations
             s1 = run_schedule([1])
@@ -280,6 +308,9 @@ def run(ctx):
                 if n0 in hot and n1 in hot:
                     jobs.append((n0, n1, warm, 2, True, 40000))
                     jobs.append((n0, n1, warm, 3, False, 40000))
+                    if not warm:
+                        # one preemption at EVERY source line of the singleton-owning code
+                        jobs.append((n0, n1, warm, 1, 'line', 40000))
             else:
                 # quick: every pair with <= 1 preemption; the pairs that touch both thread-local singletons with <= 2
                 if n0 in hot and n1 in hot and not warm:
@@ -291,7 +322,7 @@ def run(ctx):
     ctx.counts['traces_validated_against_impl'] = ctx.counts.get('evaluations', 0)
     ctx.extra['workloads'] = WORKLOADS
     ctx.extra['preemption_bound'] = ('1 for all 128 pair x warm combinations, 2 for the 16 iterative/array pairs' if not ctx.thorough
-                                     else '2 for all pairs; 2 over fine points and 3 over coarse points (capped at 40000 schedules) for the 16 iterative/array pairs')
+                                     else '2 for all pairs; 2 over fine points and 3 over coarse points (capped at 40000 schedules) for the 16 iterative/array pairs; 1 preemption at every source line of the singleton-owning code (sys.settrace) for those 16 pairs')
     ctx.extra['exhaustive'] = ctx.counts.get('pairs_capped', 0) == 0
 
 
@@ -317,8 +348,9 @@ def replay(case):
             g0, g1 = f0, f1
             f0 = lambda: (warm_up(), g0())[1]     # noqa: E731
             f1 = lambda: (warm_up(), g1())[1]     # noqa: E731
-        with patched(holder, FINE if case.get('fine') else COARSE):
-            out = s.run(f0, f1, copy_context=(case['warm'] == 'ctx'))
+        fine = case.get('fine')
+        with patched(holder, [] if fine == 'line' else FINE if fine else COARSE):
+            out = s.run(f0, f1, copy_context=(case['warm'] == 'ctx'), tracer=line_tracer(holder) if fine == 'line' else None)
         holder[0] = None
         lines = [f"pair {case['pair']} warm={case['warm']} schedule {case['schedule']} ({s.k} points)"]
         bad = False
